@@ -180,6 +180,11 @@ def locate(repo, locator):
                 if header.startswith('macro '):
                     nm, _, ordn = header[6:].partition('#')
                     (_, _), (lo, hi) = _find_macro_arm(toks, lo, hi, nm.strip(), int(ordn or 0))
+                    # E3c: an arm body that is exactly ONE repetition group `$( items )*` (e.g. `($($t:ty)*) => {$( impl .. )*};`
+                    # in integer/src/third_party/num_order.rs): the items live inside the group; descend into it
+                    if hi - lo >= 4 and toks[lo] == ('p', '$') and toks[lo + 1] == ('p', '(') \
+                            and rtok.match_close(toks, lo + 1) == hi - 2 and toks[hi - 1] in (('p', '*'), ('p', '+')):
+                        lo, hi = lo + 2, hi - 2
                 else:
                     lo, hi = _find_container(toks, lo, hi, header)
                 break
